@@ -608,6 +608,13 @@ class ExclProxy:
         self.log[nm] = r
         return r
 
+    def match(self, name):
+        # the recorder answers whatever way the walker asks; what it asks with is the code's business
+        r = any(p.match(name) is not None for p in self.patterns)
+        nm = name.decode('latin-1') if isinstance(name, bytes) else name
+        self.log[nm] = r
+        return r
+
 
 TIMEOUTS = {'n': 0}
 
